@@ -87,6 +87,9 @@ pub fn run(outdir: &str, seed: u64, thorough: bool) -> serde_json::Value {
         ("is-null-of-disjunction", "SELECT (t.age > 3{k} OR t.score > 2) IS NULL AS b, t.id AS i FROM users AS t"),
         ("is-null-of-conjunction", "SELECT (t.score > {k} AND t.score < 8) IS NULL AS b, t.id AS i FROM users AS t"),
         ("is-null-of-negation", "SELECT (NOT (t.score > {k})) IS NULL AS b, t.id AS i FROM users AS t WHERE (t.age > 30 OR t.score > 5) IS NULL OR t.age > 2{k}"),
+        // IN and LIKE over a disjunction (they bind tighter than OR)
+        ("in-list-of-disjunction", "SELECT (t.age > 3{k} OR t.id > 2{k}) IN (FALSE) AS b, t.id AS i FROM users AS t"),
+        ("like-of-disjunction", "SELECT (t.city = 'Paris' OR t.age > 3{k}) LIKE '0' AS b, t.id AS i FROM users AS t"),
         ("constant-before-aggregate-having", "SELECT {k} AS one, SUM(t.amount) AS s FROM orders AS t HAVING SUM(t.amount) > 0"),
         ("using", "SELECT * FROM users AS a JOIN orders AS b USING (id)"),
         ("using-left", "SELECT * FROM orders AS a LEFT JOIN users AS b USING (id)"),
@@ -171,4 +174,50 @@ pub fn quote_cases(rng: &mut Rng, n: usize, st: &mut Stats) -> Vec<String> {
         if i < 1 { st.sample(json!({"stream":"quoting","delimiter":q.to_string(),"value":s,"written":written,"read_back":back})); }
     }
     cases
+}
+
+/// QV/Generated/Parens.v: how the translator writes each function of the expression language — for every
+/// argument, whether the text around it delimits it (parentheses, a comma of a call, a keyword of CASE /
+/// CAST / EXTRACT) or leaves it bare next to an operator
+pub fn generate_parens(dir: &str) -> Result<(), String> {
+    use qrlew::dialect_translation::{postgresql::PostgreSqlTranslator, RelationToQueryTranslator};
+    use sqlparser::ast as sp;
+    let marker = |i: usize| sp::Expr::BinaryOp { left: Box::new(sp::Expr::Identifier(sp::Ident::new(format!("mk{}a", i)))), op: sp::BinaryOperator::Or, right: Box::new(sp::Expr::Identifier(sp::Ident::new(format!("mk{}b", i)))) };
+    let keywords = ["WHEN", "THEN", "ELSE", "END", "AS", "FROM", "FOR"];
+    let mut rows: Vec<String> = vec![];
+    for f in crate::c14::all_functions() {
+        let name = { let s = format!("{:?}", f); s.split('(').next().unwrap().to_string() };
+        let mut found = None;
+        for arity in [1usize, 2, 3, 4, 0] {
+            let mut args: Vec<sp::Expr> = (0..arity).map(|i| marker(i)).collect();
+            // IN takes the list of its right-hand side as a tuple
+            if name == "InList" { if arity != 2 { continue; } args[1] = sp::Expr::Tuple(vec![marker(1)]); }
+            let fc = f.clone();
+            let Ok(e) = catch_unwind(AssertUnwindSafe(|| PostgreSqlTranslator.function(&fc, args))) else { continue };
+            let text = e.to_string();
+            if (0..arity).all(|i| text.contains(&format!("mk{}a OR mk{}b", i, i))) { found = Some((arity, e, text)); break; }
+        }
+        let Some((arity, e, text)) = found else { rows.push(format!("  ({}, 0%nat, {}, [])", coq_string(&name), coq_string("not-written"))); continue };
+        let root = { let s = format!("{:?}", e); s.split(|c| c == '(' || c == '{' || c == ' ').next().unwrap().to_string() };
+        let mut classes = vec![];
+        for i in 0..arity {
+            let m = format!("mk{}a OR mk{}b", i, i);
+            let at = text.find(&m).unwrap();
+            let before = text[..at].trim_end(); let after = text[at + m.len()..].trim_start();
+            let word_before: String = before.chars().rev().take_while(|c| c.is_ascii_alphabetic()).collect::<String>().chars().rev().collect();
+            let word_after: String = after.chars().take_while(|c| c.is_ascii_alphabetic()).collect();
+            // POSITION(a IN b): the keyword IN separates the two arguments inside the parentheses of the form
+            let kw = |w: &str| keywords.contains(&w) || (root == "Position" && w == "IN");
+            let safe_b = before.ends_with('(') || before.ends_with(',') || kw(word_before.as_str());
+            let safe_a = after.starts_with(')') || after.starts_with(',') || kw(word_after.as_str());
+            let paren = (before.ends_with('(') || before.ends_with(',')) && (after.starts_with(')') || after.starts_with(','));
+            classes.push(if paren { 0 } else if safe_b && safe_a { 1 } else { 2 });
+        }
+        rows.push(format!("  ({}, {}%nat, {}, [{}])", coq_string(&name), arity, coq_string(&root), classes.iter().map(|c| format!("{}%nat", c)).collect::<Vec<_>>().join("; ")));
+    }
+    let s = format!("(* GENERATED by `qvh GEN-PARENS` from RelationToQueryTranslator::function of /repo on every run: each function of\n   the expression language written with compound arguments; per argument 0 = between parentheses or commas,\n   1 = delimited by a keyword (CASE / CAST / EXTRACT ...), 2 = bare next to an operator.  Do not edit. *)\nFrom Coq Require Import String List.\nImport ListNotations.\nOpen Scope string_scope.\n\n(* name, arguments written, root node of the sqlparser tree, class of each argument *)\nDefinition parens : list (string * nat * string * list nat) := [\n{}\n].\n", rows.join(";\n"));
+    std::fs::create_dir_all(dir).map_err(|e| e.to_string())?;
+    let path = format!("{}/Parens.v", dir);
+    if std::fs::read_to_string(&path).ok().as_deref() != Some(&s) { std::fs::write(&path, s).map_err(|e| e.to_string())?; }
+    Ok(())
 }
